@@ -1,0 +1,54 @@
+//go:build verif
+
+package floodsub
+
+import "github.com/aperturerobotics/bifrost/pubsub"
+
+// VerifSnapshot is a copy of the router state taken under the router mutex.
+// Only built with the "verif" tag; used by the verification harness to detect
+// quiescence exactly.
+type VerifSnapshot struct {
+	// Channels maps channel id to the number of subscriptions below the key.
+	Channels map[string]int
+	// PeerChannels maps channel id to the peers announced for it.
+	PeerChannels map[string][]pubsub.PeerLinkTuple
+	// Started are the peer streams with a context (executing).
+	Started []pubsub.PeerLinkTuple
+	// Pending are the peer streams in the peers map without a context yet.
+	Pending []pubsub.PeerLinkTuple
+	// IncSessions is len(incSessions).
+	IncSessions int
+	// PublishQueue is len(publishCh).
+	PublishQueue int
+	// Seen is the number of entries of the seen cache.
+	Seen int
+}
+
+// VerifSnapshot returns a snapshot of the router state.
+func (m *FloodSub) VerifSnapshot() *VerifSnapshot {
+	s := &VerifSnapshot{
+		Channels:     make(map[string]int),
+		PeerChannels: make(map[string][]pubsub.PeerLinkTuple),
+	}
+	m.mtx.Lock()
+	for ch, subs := range m.channels {
+		s.Channels[ch] = len(subs)
+	}
+	for ch, peers := range m.peerChannels {
+		for p := range peers {
+			s.PeerChannels[ch] = append(s.PeerChannels[ch], p)
+		}
+	}
+	for tpl, sh := range m.peers {
+		if sh.ctx != nil {
+			s.Started = append(s.Started, tpl)
+		} else {
+			s.Pending = append(s.Pending, tpl)
+		}
+	}
+	s.IncSessions = len(m.incSessions)
+	s.PublishQueue = len(m.publishCh)
+	m.mtx.Unlock()
+	s.Seen = m.seenMessages.ItemCount()
+	return s
+}
